@@ -156,7 +156,10 @@ def run_case(case):
     sched = vsched.Sched(seed=0, policy="scripted", max_steps=100000)
     net = vnet.Net(waiter=vsched.SchedWaiter(sched))
     via, timeout = case["via"], case["timeout"]
-    cfg = {"sync_request_timeout": timeout if via == "sync" else 30}
+    # "sync, configured late": the limit is put into the connection's configuration after the connection object exists (what a
+    # service's on_connect does, e.g. the classic service), not handed over at construction
+    late = bool(case.get("late_config")) and via == "sync"
+    cfg = {"sync_request_timeout": timeout if (via == "sync" and not late) else 30}
     conn = rpyc.VoidService()._connect(Channel(net.a), cfg)
     vsched.simulate_connection(conn, sched, "A")
 
@@ -178,6 +181,8 @@ def run_case(case):
         sched.time.sleep(case["t0"])
         token = "tok"
         if via == "sync":
+            if late:
+                conn._config["sync_request_timeout"] = timeout
             t_start = sched.now
             try:
                 v = conn.sync_request(consts.HANDLE_PING, token)
@@ -321,7 +326,8 @@ def gen_case(rng, idx):
         if can_hang and op in ("wait", "value"):
             op = "ready"
         events.append((t, op, "cb%d" % j))
-    return dict(via=via, timeout=timeout, t0=t0, script=sorted(script), events=events if via != "sync" else [])
+    return dict(via=via, timeout=timeout, t0=t0, script=sorted(script), events=events if via != "sync" else [],
+                late_config=(via == "sync" and rng.random() < .5))
 
 
 def boundary_cases():
